@@ -160,9 +160,13 @@ fn arith_case(out: &mut Out, a: (i64, i64), b: (i64, i64), d: Duration) {
         "out": out_dur(guarded(|| sa - sb))}));
     out.ev(&json!({"ty":"system","op":"diff","a":tv(a.0,a.1),"b":tv(b.0,b.1),"via":"duration_since",
         "out": out_dur(guarded(|| sa.duration_since(sb)))}));
-    // SystemTime::elapsed reads the real-time clock (may be stepped): panic-freedom only ("b" negative => not in domain)
-    out.ev(&json!({"ty":"system","op":"elapsed","a":tv(a.0,a.1),"b":tv(-1,0),"c":tv(-1,0),
-        "out": out_dur(guarded(|| sa.elapsed()))}));
+    // SystemTime::elapsed = SystemTime::now() - a: bracketed by two readings of the real-time clock;
+    // that clock may be stepped, so the judge allows 10 s of slack on either side
+    let rb = ts_of_system(SystemTime::now());
+    let sel = guarded(|| sa.elapsed());
+    let rc = ts_of_system(SystemTime::now());
+    out.ev(&json!({"ty":"system","op":"elapsed_sys","a":tv(a.0,a.1),"b":tv(rb.seconds(),rb.nanoseconds()),
+        "c":tv(rc.seconds(),rc.nanoseconds()),"out": out_dur(sel)}));
     out.ev(&json!({"ty":"system","op":"since_unix","a":tv(a.0,a.1),"b":tv(0,0),
         "out": out_dur(guarded(|| Some(sa.duration_since_unix_time())))}));
     let cmp = guarded(|| (sa <= sb, sa < sb, sa == sb, sa.cmp(&sb) as i32));
